@@ -20,11 +20,10 @@ end
 def rawTy (t : Ty) : Bool := !(t == .line || t == .margin || t == .page || t == .replaced || t == .footnoteArea)
 
 /-- the raw-tree shape (`RawOK`): no column groups stored yet, no wrapper flag, leaves are leaves, only raw
-    types, cells span at least one column (integerAttribute's minimum), and — the exclusion of KF09-2 —
-    no inline box is running -/
+    types, cells span at least one column (integerAttribute's minimum) -/
 def rawOK (ty : Ty) (a : Attrs) (kids cols : List Box) : Bool :=
   rawTy ty && cols.isEmpty && !a.tw && (isParent ty || kids.isEmpty) &&
-  kids.all (fun c => rawTy c.ty && !(c.ty == .inline && c.a.running)) &&
+  kids.all (fun c => rawTy c.ty) &&
   (!(ty == .tableCell) || decide (1 ≤ a.colspan))
 
 /-- `RawOK` as the composition theorem needs it: `rawOK` plus every cell child spans at least one column,
@@ -42,11 +41,11 @@ def gridOKw (ty : Ty) (kids : List Box) : Bool :=
      kids.all (fun row => (rowCells row).all (fun c => c.a.colspan ≥ 1 && c.a.rowspan ≥ 1)))
 
 /-- what the table pass establishes at every box: only raw types (wrappers are blocks / inline-blocks,
-    the anonymous table parts are raw types too), leaves are leaves, no running inline box, the table-model
+    the anonymous table parts are raw types too), leaves are leaves, the table-model
     clauses of `WF` (`childAllowed`, `tableKidsOK`), the weakened grid clause, columns are empty (rule 1.1) -/
 def postTable (ty : Ty) (a : Attrs) (kids cols : List Box) : Bool :=
   rawTy ty && (isParent ty || kids.isEmpty) &&
-  kids.all (fun c => rawTy c.ty && !(c.ty == .inline && c.a.running)) &&
+  kids.all (fun c => rawTy c.ty) &&
   kids.all (childAllowed ty a) && tableKidsOK ty a kids cols && gridOKw ty kids &&
   (!(ty == .tableColumn) || kids.isEmpty)
 
